@@ -770,6 +770,23 @@ func (m *Model) Pull(name string, max int, now time.Time, resp []*pubsubpb.Recei
 					also = append(also, "C06")
 				}
 				also = append(also, "C14")
+				// "acks, seeks, deletes of one subscription never change what
+				// another receives": the same message on a sibling subscription was
+				// acked, dead-lettered, touched by a seek or lost its subscription
+				sibling := false
+				for _, o := range m.AllSubs {
+					if o == s {
+						continue
+					}
+					for _, x := range o.Dels {
+						if x.Msg == d.Msg && (x.State == Acked || x.State == DLd || x.Seek || !o.Live) {
+							sibling = true
+						}
+					}
+				}
+				if sibling {
+					also = append(also, "C02")
+				}
 				viols = append(viols, Viol{Prop: "C01", Also: also, Rule: "must-missing", Sig: map[string]any{"delivered_before": d.N > 0}, Detail: fmt.Sprintf("Pull(%s,max=%d) at +%v did not return message #%d which is outstanding and due (%s; expires +%v; %d candidates)", name, max, now.Sub(epoch), d.Msg.Idx, why, d.Exp.Sub(epoch), cands)})
 			}
 		}
